@@ -16,7 +16,11 @@ points are read off.  The oracle shares no code with the model.
         (tie = what the property specifies: booleans always, points only when the result is true)
   lines <pairs> <ox> <oy> <oz> <sh> <box>     per-case text of one box (model and spec)
   case  <T> <12 numbers>                         one case; numbers are `n/d`, `n` or `x<16 hex digits of a double>`
-  sweep                                       float guard sweep oracle, blocks read from stdin (see below)
+  sweep                                       float guard sweep oracle + model@Float tie, blocks read from stdin (see below)
+  fcases <d|f>                                model executed at Float / Float32 on cases read from stdin
+                                              (one per line: 12 `x<hex double bits>`: box min, box max, pos, dir)
+  small <T> <boxes> <posvals> <dirvals>       guard lattice at a SMALL `T` (all 18 guard-fail arms reached exactly, see below)
+  smalllines <T> <boxes> <posvals> <dirvals> <blk>   per-case text of one block
   nd <boxes> <R> <ox> <oy> <oz>               non-dyadic direction lattice, model at Float/Float32 bit for bit (see below)
   ndlines <boxes> <R> <ox> <oy> <oz> <blk> <d|f>   per-case text of one block
 -/
@@ -251,6 +255,78 @@ def parseQ (s : String) : Q :=
     | [a, b] => mkRat a.toInt! b.toNat!
     | _ => mkRat s.toInt! 1
 
+/-! ## The model executed in FLOATING POINT (used by the guard sweep tie and by the `nd` lattice)
+
+`Float` / `Float32` operations are the IEEE operations of the machine, the same the C++
+harness executes (`-ffp-contract=off`, no fast-math); comparisons with NaN are false on both
+sides; infinities arise and propagate identically.  So running the MODEL at `Float` on the
+sweep's extreme inputs and comparing bit for bit ties every branch arm of the model —
+including the 18 guard-FAIL arms no integer lattice reaches with `T = DBL_MAX` — to the code. -/
+
+def tmaxF : Float := Float.ofBits 0x7fefffffffffffff
+def tmaxF32 : Float32 := Float32.ofBits 0x7f7fffff
+
+structure GOut where
+  feHit : Bool
+  e : Array UInt64
+  x : Array UInt64
+  isHit : Bool
+  ip : Array UInt64
+  isb : Bool
+
+section
+variable {α : Type} [Add α] [Sub α] [Mul α] [Div α] [Neg α] [LT α] [LE α]
+  [DecidableLT α] [DecidableLE α] [OfNat α 0] [OfNat α 1]
+
+/-- the model on 12 scalars (box min, box max, pos, dir); out-parameters start from the harness' sentinels -/
+@[specialize] def runGv (T : α) (ofI : Int → α) (bits : α → UInt64)
+    (b0 b1 b2 b3 b4 b5 p0 p1 p2 d0 d1 d2 : α) : GOut :=
+  let b : Box3 α := ⟨⟨b0, b1, b2⟩, ⟨b3, b4, b5⟩⟩
+  let r : Line3 α := ⟨⟨p0, p1, p2⟩, ⟨d0, d1, d2⟩⟩
+  let fe := findEntryAndExitPoints T r b ⟨ofI 1001, ofI 1002, ofI 1003⟩ ⟨ofI 2001, ofI 2002, ofI 2003⟩
+  let is := intersects T b r ⟨ofI 3001, ofI 3002, ofI 3003⟩
+  let isb := intersectsBool T b r ⟨ofI 3001, ofI 3002, ofI 3003⟩
+  let vb (p : V3 α) : Array UInt64 := #[bits p.x, bits p.y, bits p.z]
+  ⟨fe.1, vb fe.2.1, vb fe.2.2, is.1, vb is.2, isb⟩
+
+@[specialize] def runG (T : α) (ofI : Int → α) (bits : α → UInt64) (v : Array Int) : GOut :=
+  let b : Box3 α := ⟨⟨ofI v[0]!, ofI v[1]!, ofI v[2]!⟩, ⟨ofI v[3]!, ofI v[4]!, ofI v[5]!⟩⟩
+  let r : Line3 α := ⟨⟨ofI v[6]!, ofI v[7]!, ofI v[8]!⟩, ⟨ofI v[9]!, ofI v[10]!, ofI v[11]!⟩⟩
+  let fe := findEntryAndExitPoints T r b ⟨ofI 1001, ofI 1002, ofI 1003⟩ ⟨ofI 2001, ofI 2002, ofI 2003⟩
+  let is := intersects T b r ⟨ofI 3001, ofI 3002, ofI 3003⟩
+  let isb := intersectsBool T b r ⟨ofI 3001, ofI 3002, ofI 3003⟩
+  let vb (p : V3 α) : Array UInt64 := #[bits p.x, bits p.y, bits p.z]
+  ⟨fe.1, vb fe.2.1, vb fe.2.2, is.1, vb is.2, isb⟩
+end
+
+def runF64 (v : Array Int) : GOut := runG tmaxF (fun i => Float.ofInt i) Float.toBits v
+def runF32 (v : Array Int) : GOut :=
+  runG tmaxF32 (fun i => (Float.ofInt i).toFloat32) (fun x => x.toFloat.toBits) v
+
+/-- bit pattern with every NaN mapped to one canonical pattern (payload / sign of a NaN are not specified) -/
+def bitsC (x : Float) : UInt64 := if x.isNaN then 0x7ff8000000000000 else x.toBits
+
+/-- the model at binary64 / binary32 on inputs given as double bit patterns (binary32 inputs arrive widened, exactly) -/
+def runF64b (v : Array UInt64) : GOut :=
+  let f (i : Nat) : Float := Float.ofBits v[i]!
+  runGv tmaxF (fun i => Float.ofInt i) bitsC (f 0) (f 1) (f 2) (f 3) (f 4) (f 5) (f 6) (f 7) (f 8) (f 9) (f 10) (f 11)
+def runF32b (v : Array UInt64) : GOut :=
+  let f (i : Nat) : Float32 := (Float.ofBits v[i]!).toFloat32
+  runGv tmaxF32 (fun i => (Float.ofInt i).toFloat32) (fun x => bitsC x.toFloat)
+    (f 0) (f 1) (f 2) (f 3) (f 4) (f 5) (f 6) (f 7) (f 8) (f 9) (f 10) (f 11)
+
+def tieBits (h : UInt64) (o : GOut) : UInt64 :=
+  let h := mixB h o.feHit
+  let h := if o.feHit then (o.e ++ o.x).foldl mix h else h
+  let h := mixB h o.isHit
+  let h := if o.isHit then o.ip.foldl mix h else h
+  mixB h o.isb
+
+def hx (u : UInt64) : String := String.ofList (Nat.toDigits 16 u.toNat)
+def gLine (o : GOut) : String :=
+  let pv (a : Array UInt64) : String := ",".intercalate (a.toList.map hx)
+  s!"fe={bStr o.feHit} entry={if o.feHit then pv o.e else "-"} exit={if o.feHit then pv o.x else "-"} is={bStr o.isHit} ip={if o.isHit then pv o.ip else "-"} isb={bStr o.isb}"
+
 /-! ## Float guard sweep oracle
 
 stdin, per block:
@@ -258,13 +334,20 @@ stdin, per block:
 T <num>            eta <num>
 box <6 nums: min xyz, max xyz>
 px <nums>   py <nums>   pz <nums>   dx <nums>   dy <nums>   dz <nums>
-impl <one char per case: '0' + feHit + 2*isHit>     (cases: px × py × pz × dx × dy × dz, zero direction skipped)
+impl <one char per case: '0' + feHit + 2*isHit + 4*(2-argument wrapper differs)>   (cases: px × py × pz × dx × dy × dz, the ZERO direction included)
+pts  <one char per case: '0' + e + 4*x + 16*ip>   2-bit codes computed by the harness for entry / exit (when fe is true) and ip
+                                                 (when is is true): 0 in the box and on a face (ip: == pos when the origin is inside),
+                                                 1 never written (still the sentinel), 2 a NaN coordinate, 3 outside the box / on no face
+tie  <one hash per (px,py) chunk>                 results + bit patterns of the points when true, of the real code
 end
 ```
-For each case the oracle decides the exact answer on the box eroded and dilated
+(a) For each case the oracle decides the exact answer on the box eroded and dilated
 per axis by `eta * max(|min|,|max|,|pos|)`; only ROBUST answers (the same on both)
-are compared with the implementation.  Output: counters and the first flips of
-each category.
+are compared with the implementation.  (b) The point codes are classified by cause.
+(c) The MODEL is executed at Float (prec 53) / Float32 (prec 24) on the same bit patterns and
+its chunk hashes are compared with `tie`.  Output: counters, per-block class counts
+(`blockcount`), chunks whose tie differs (`tiemismatch <block index> <chunk>`), and the first
+flips of each category.
 -/
 
 def qabs (q : Q) : Q := if q < 0 then -q else q
@@ -296,6 +379,10 @@ structure SweepAcc where
   feGuardOutside : Nat := 0     -- fe: guard fails, pos outside the slab (return false)
   isFrontSubst : Nat := 0       -- intersects: front parameter replaced by TMAX
   isBackSkip : Nat := 0         -- intersects: back parameter not recorded
+  wrapperDiffers : Nat := 0     -- intersects(box,ray) != intersects(box,ray,ip)
+  feTrue : Nat := 0             -- implementation results that are true (their points were classified by the harness)
+  isTrueOutside : Nat := 0
+  zeroDirCases : Nat := 0
   counts : List (String × Nat) := []
   examples : List String := []
 
@@ -318,13 +405,18 @@ def SweepAcc.merge (a b : SweepAcc) : SweepAcc := Id.run do
            casesWithGuardFail := a.casesWithGuardFail + b.casesWithGuardFail,
            feGuardInside := a.feGuardInside + b.feGuardInside, feGuardOutside := a.feGuardOutside + b.feGuardOutside,
            isFrontSubst := a.isFrontSubst + b.isFrontSubst, isBackSkip := a.isBackSkip + b.isBackSkip,
+           wrapperDiffers := a.wrapperDiffers + b.wrapperDiffers, feTrue := a.feTrue + b.feTrue,
+           isTrueOutside := a.isTrueOutside + b.isTrueOutside, zeroDirCases := a.zeroDirCases + b.zeroDirCases,
            counts := cs,
            examples := Id.run do
-             -- keep at most 3 examples per category
+             -- keep at most 3 examples per (category, block tag)
              let mut ex := a.examples
              for e in b.examples do
-               let cat := ((e.splitOn " ").getD 1 "")
-               if (ex.filter (fun x => (x.splitOn " ").getD 1 "" == cat)).length < 3 then ex := ex ++ [e]
+               let ws := e.splitOn " "
+               let cat := ws.getD 1 ""
+               let tag := ws.getD 2 ""
+               if (ex.filter (fun x => let xs := x.splitOn " "; xs.getD 1 "" == cat && xs.getD 2 "" == tag)).length < 3 then
+                 ex := ex ++ [e]
              return ex }
 
 structure SweepBlock where
@@ -340,6 +432,9 @@ structure SweepBlock where
   impl : String
   tag : String
   prec : Nat := 53
+  pts : String := ""                 -- per case: '0' + e + 4*x + 16*ip, 2-bit codes 0 ok, 1 never written, 2 NaN, 3 outside box / off every face
+  ties : Array UInt64 := #[]         -- per (px,py) chunk: hash of results + points-when-true (bit patterns) of the real code
+  bits : Array (Array UInt64) := #[#[], #[], #[], #[], #[], #[], #[]]   -- raw double bit patterns: box, px, py, pz, dx, dy, dz
 
 def axisStats (T p d lo hi : Q) (outside : Bool) (a : SweepAcc) : SweepAcc :=
   if d == 0 || codeGuard T p d lo hi then a
@@ -354,13 +449,15 @@ def axisStats (T p d lo hi : Q) (outside : Bool) (a : SweepAcc) : SweepAcc :=
     let a := if front then { a with isFrontSubst := a.isFrontSubst + 1 } else a
     if back then { a with isBackSkip := a.isBackSkip + 1 } else a
 
-def sweepCase (B : SweepBlock) (r : Line3 Q) (implFe implIs : Bool) (a : SweepAcc) : SweepAcc :=
+def sweepCase (B : SweepBlock) (r : Line3 Q) (implFe implIs wrapDiff : Bool) (pc : Nat) (a : SweepAcc) : SweepAcc :=
   let b := B.box
   let T := B.T
   let empty := b.max.x < b.min.x || b.max.y < b.min.y || b.max.z < b.min.z
   let inside := b.min.x ≤ r.pos.x && r.pos.x ≤ b.max.x && b.min.y ≤ r.pos.y && r.pos.y ≤ b.max.y &&
                 b.min.z ≤ r.pos.z && r.pos.z ≤ b.max.z
-  let a := { a with cases := a.cases + 1 }
+  let a := { a with cases := a.cases + 1, wrapperDiffers := a.wrapperDiffers + (if wrapDiff then 1 else 0),
+                    feTrue := a.feTrue + (if implFe then 1 else 0),
+                    isTrueOutside := a.isTrueOutside + (if implIs && !inside then 1 else 0) }
   let gf0 := a.guardFailAxes
   let a := if empty then a else
     axisStats T r.pos.z r.dir.z b.min.z b.max.z (!inside)
@@ -398,7 +495,9 @@ def sweepCase (B : SweepBlock) (r : Line3 Q) (implFe implIs : Bool) (a : SweepAc
   let allTiny := allTinyA px dx b.min.x b.max.x && allTinyA py dy b.min.y b.max.y && allTinyA pz dz b.min.z b.max.z
   let face := faceA px dx b.min.x b.max.x || faceA py dy b.min.y b.max.y || faceA pz dz b.min.z b.max.z
   let anyFail := failS px dx b.min.x b.max.x || failS py dy b.min.y b.max.y || failS pz dz b.min.z b.max.z
-  let gtag := if allTiny then "all-components-fail-guard" else if ovf then "face-minus-pos-overflows"
+  let zeroD := !nz dx && !nz dy && !nz dz
+  let a := if zeroD then { a with zeroDirCases := a.zeroDirCases + 1 } else a
+  let gtag := if zeroD then "zero-direction" else if allTiny then "all-components-fail-guard" else if ovf then "face-minus-pos-overflows"
               else if face then "box-face-at-TMAX" else if anyFail then "other-guardpath" else "other-noguard"
   -- is some EXACT hit parameter representable (|t| ≤ TMAX)?  (not used for the overflow class)
   let wtag (i : Option Ival) : String :=
@@ -408,6 +507,12 @@ def sweepCase (B : SweepBlock) (r : Line3 Q) (implFe implIs : Bool) (a : SweepAc
     | none => ""
   let desc : Unit → String := fun _ =>
     s!"{B.tag} box={vStr b.min};{vStr b.max} pos={vStr r.pos} dir={vStr r.dir} implFe={bStr implFe} implIs={bStr implIs} exactLine={bStr exact.isSome} exactRay={bStr exactR.isSome}"
+  -- reported points (codes computed by the harness on the real outputs)
+  let reason (c : Nat) : String := if c == 1 then "never-written" else if c == 2 then "nan-coordinate" else "outside-box-or-off-surface"
+  let pdesc : Unit → String := fun _ => s!"{desc ()} pointcodes(entry,exit,ip)={pc % 4},{pc / 4 % 4},{pc / 16 % 4}"
+  let a := if pc % 4 != 0 then a.bump s!"reported-points:findEntryAndExitPoints:entry-{reason (pc % 4)}:{gtag}" pdesc else a
+  let a := if pc / 4 % 4 != 0 then a.bump s!"reported-points:findEntryAndExitPoints:exit-{reason (pc / 4 % 4)}:{gtag}" pdesc else a
+  let a := if pc / 16 % 4 != 0 then a.bump s!"reported-points:intersects:ip-{reason (pc / 16 % 4)}:{gtag}" pdesc else a
   -- line
   let a :=
     match lSmall with
@@ -432,67 +537,105 @@ def sweepCase (B : SweepBlock) (r : Line3 Q) (implFe implIs : Bool) (a : SweepAc
       if implIs then a.bump s!"intersects:miss-to-hit:{gtag}" desc else a
     else a
 
-def sweepBlock (B : SweepBlock) : IO SweepAcc := do
-  -- case order: px, py, pz, dx, dy, dz lexicographic; zero direction skipped
+/-- One block.  Returns the accumulated statistics and the (px,py) chunks whose model@Float tie
+hash differs from the implementation's. -/
+def sweepBlock (B : SweepBlock) : IO (SweepAcc × List Nat) := do
+  -- case order: px, py, pz, dx, dy, dz lexicographic
   let impl := B.impl.toList.toArray
+  let pts := B.pts.toList.toArray
   let npz := B.pz.size
   let npy := B.py.size
-  -- cumulative case offsets per px index so that tasks can index `impl`
-  let ndir := Id.run do
-    let mut n := 0
-    for x in B.dx do for y in B.dy do for z in B.dz do
-      if !(x == 0 && y == 0 && z == 0) then n := n + 1
-    return n
+  let ndir := B.dx.size * B.dy.size * B.dz.size
   let perPy := npz * ndir
   let perPx := npy * perPy
+  let f32 := B.prec == 24
+  let bb := B.bits[0]!
   let tasks ← (List.range (B.px.size * npy)).mapM fun ixy => IO.asTask (prio := .dedicated) do
     let ix := ixy / npy
     let iy := ixy % npy
     let mut a : SweepAcc := {}
     let mut k := ix * perPx + iy * perPy
-    for z in B.pz do
-      for dx in B.dx do
-        for dy in B.dy do
-          for dz in B.dz do
-            if dx == 0 && dy == 0 && dz == 0 then continue
+    let mut th : UInt64 := 1469598103934665603
+    for iz in [0:npz] do
+      for jx in [0:B.dx.size] do
+        for jy in [0:B.dy.size] do
+          for jz in [0:B.dz.size] do
             let c := (impl[k]!).toNat - 48
+            let pc := (pts.getD k '0').toNat - 48
             k := k + 1
-            a := sweepCase B ⟨⟨B.px[ix]!, B.py[iy]!, z⟩, ⟨dx, dy, dz⟩⟩ (c % 2 == 1) (c / 2 % 2 == 1) a
-    return a
+            a := sweepCase B ⟨⟨B.px[ix]!, B.py[iy]!, B.pz[iz]!⟩, ⟨B.dx[jx]!, B.dy[jy]!, B.dz[jz]!⟩⟩
+                   (c % 2 == 1) (c / 2 % 2 == 1) (c / 4 % 2 == 1) pc a
+            if bb.size == 6 then
+              let v : Array UInt64 := #[bb[0]!, bb[1]!, bb[2]!, bb[3]!, bb[4]!, bb[5]!,
+                (B.bits[1]!)[ix]!, (B.bits[2]!)[iy]!, (B.bits[3]!)[iz]!,
+                (B.bits[4]!)[jx]!, (B.bits[5]!)[jy]!, (B.bits[6]!)[jz]!]
+              th := tieBits th (if f32 then runF32b v else runF64b v)
+    return (a, th)
   let mut acc : SweepAcc := {}
+  let mut bad : List Nat := []
+  let mut ixy := 0
   for t in tasks do
     match t.get with
-    | .ok a => acc := acc.merge a
+    | .ok (a, th) =>
+      acc := acc.merge a
+      if B.ties.getD ixy 0 != th then bad := bad ++ [ixy]
     | .error e => throw e
+    ixy := ixy + 1
   if acc.cases != impl.size then
     IO.eprintln s!"sweep: case count mismatch: enumerated {acc.cases}, impl string {impl.size}"
-  return acc
+  return (acc, bad)
 
 def nums (ws : List String) : Array Q := (ws.map parseQ).toArray
 
-partial def readSweep (h : IO.FS.Stream) (B : SweepBlock) (acc : SweepAcc) : IO SweepAcc := do
+def numBits (ws : List String) : Array UInt64 :=
+  (ws.map fun w => if w.startsWith "x" then (parseHex ((w.drop 1).toString)).toUInt64 else 0).toArray
+
+partial def fcasesLoop (h out : IO.FS.Stream) (f32 : Bool) : IO Unit := do
   let line ← h.getLine
-  if line.isEmpty then return acc
+  if line.isEmpty then return
+  let ws := (((line.replace "\n" "").replace "\r" "").splitOn " ").filter (· ≠ "")
+  if ws.length == 12 then
+    let v := numBits ws
+    out.putStrLn s!"M {gLine (if f32 then runF32b v else runF64b v)}"
+  fcasesLoop h out f32
+
+structure SweepOut where
+  acc : SweepAcc := {}
+  nblocks : Nat := 0
+  lines : Array String := #[]     -- `blockcount <tag> <cat> <n>` and `tiemismatch <tag> <block index> <chunk>`
+  tieChunks : Nat := 0
+  tieBad : Nat := 0
+
+partial def readSweep (h : IO.FS.Stream) (B : SweepBlock) (o : SweepOut) : IO SweepOut := do
+  let line ← h.getLine
+  if line.isEmpty then return o
   let ws := (((line.replace "\n" "").replace "\r" "").splitOn " ").filter (· ≠ "")
   match ws with
-  | "T" :: v :: _ => readSweep h { B with T := parseQ v } acc
-  | "eta" :: v :: _ => readSweep h { B with eta := parseQ v } acc
-  | "tag" :: v :: _ => readSweep h { B with tag := v } acc
-  | "prec" :: v :: _ => readSweep h { B with prec := v.toNat! } acc
+  | "T" :: v :: _ => readSweep h { B with T := parseQ v } o
+  | "eta" :: v :: _ => readSweep h { B with eta := parseQ v } o
+  | "tag" :: v :: _ => readSweep h { B with tag := v } o
+  | "prec" :: v :: _ => readSweep h { B with prec := v.toNat! } o
   | "box" :: vs =>
     let a := nums vs
-    readSweep h { B with box := ⟨⟨a[0]!, a[1]!, a[2]!⟩, ⟨a[3]!, a[4]!, a[5]!⟩⟩ } acc
-  | "px" :: vs => readSweep h { B with px := nums vs } acc
-  | "py" :: vs => readSweep h { B with py := nums vs } acc
-  | "pz" :: vs => readSweep h { B with pz := nums vs } acc
-  | "dx" :: vs => readSweep h { B with dx := nums vs } acc
-  | "dy" :: vs => readSweep h { B with dy := nums vs } acc
-  | "dz" :: vs => readSweep h { B with dz := nums vs } acc
-  | "impl" :: v :: _ => readSweep h { B with impl := v } acc
+    readSweep h { B with box := ⟨⟨a[0]!, a[1]!, a[2]!⟩, ⟨a[3]!, a[4]!, a[5]!⟩⟩, bits := B.bits.set! 0 (numBits vs) } o
+  | "px" :: vs => readSweep h { B with px := nums vs, bits := B.bits.set! 1 (numBits vs) } o
+  | "py" :: vs => readSweep h { B with py := nums vs, bits := B.bits.set! 2 (numBits vs) } o
+  | "pz" :: vs => readSweep h { B with pz := nums vs, bits := B.bits.set! 3 (numBits vs) } o
+  | "dx" :: vs => readSweep h { B with dx := nums vs, bits := B.bits.set! 4 (numBits vs) } o
+  | "dy" :: vs => readSweep h { B with dy := nums vs, bits := B.bits.set! 5 (numBits vs) } o
+  | "dz" :: vs => readSweep h { B with dz := nums vs, bits := B.bits.set! 6 (numBits vs) } o
+  | "impl" :: v :: _ => readSweep h { B with impl := v } o
+  | "pts" :: v :: _ => readSweep h { B with pts := v } o
+  | "tie" :: vs => readSweep h { B with ties := (vs.map fun w => w.toNat!.toUInt64).toArray } o
   | "end" :: _ =>
-    let a ← sweepBlock B
-    readSweep h B (acc.merge a)
-  | _ => readSweep h B acc
+    let (a, bad) ← sweepBlock B
+    let mut ls := o.lines
+    for (c, n) in a.counts do ls := ls.push s!"blockcount {B.tag} {c} {n}"
+    for ixy in bad do ls := ls.push s!"tiemismatch {B.tag} {o.nblocks} {ixy}"
+    readSweep h { B with pts := "", ties := #[] }
+      { acc := o.acc.merge a, nblocks := o.nblocks + 1, lines := ls,
+        tieChunks := o.tieChunks + B.px.size * B.py.size, tieBad := o.tieBad + bad.length }
+  | _ => readSweep h B o
 
 /-! ## Non-dyadic direction lattice (`nd`): model evaluated in FLOATING POINT
 
@@ -504,9 +647,6 @@ executed at `Float` / `Float32` — same operations in the same order as the C++
 and compared BIT FOR BIT (results always, points when the result is true), so an
 algebraically neutral rewrite such as `d * (1/dir)` for `d / dir` changes bits.
 -/
-
-def tmaxF : Float := Float.ofBits 0x7fefffffffffffff
-def tmaxF32 : Float32 := Float32.ofBits 0x7f7fffff
 
 def ndVals : Array Int := #[0, 1, -1, 3, -3, 5, -5, 7, -7]
 
@@ -539,39 +679,6 @@ def ND.case (n : ND) (blk ci : Nat) : Option (Array Int) :=
          c ix + n.ox, c iy + n.oy, c iz + n.oz,
          ndVals[di / 81]!, ndVals[(di / 9) % 9]!, ndVals[di % 9]!]
 
-structure GOut where
-  feHit : Bool
-  e : Array UInt64
-  x : Array UInt64
-  isHit : Bool
-  ip : Array UInt64
-  isb : Bool
-
-section
-variable {α : Type} [Add α] [Sub α] [Mul α] [Div α] [Neg α] [LT α] [LE α]
-  [DecidableLT α] [DecidableLE α] [OfNat α 0] [OfNat α 1]
-
-@[specialize] def runG (T : α) (ofI : Int → α) (bits : α → UInt64) (v : Array Int) : GOut :=
-  let b : Box3 α := ⟨⟨ofI v[0]!, ofI v[1]!, ofI v[2]!⟩, ⟨ofI v[3]!, ofI v[4]!, ofI v[5]!⟩⟩
-  let r : Line3 α := ⟨⟨ofI v[6]!, ofI v[7]!, ofI v[8]!⟩, ⟨ofI v[9]!, ofI v[10]!, ofI v[11]!⟩⟩
-  let fe := findEntryAndExitPoints T r b ⟨ofI 1001, ofI 1002, ofI 1003⟩ ⟨ofI 2001, ofI 2002, ofI 2003⟩
-  let is := intersects T b r ⟨ofI 3001, ofI 3002, ofI 3003⟩
-  let isb := intersectsBool T b r ⟨ofI 3001, ofI 3002, ofI 3003⟩
-  let vb (p : V3 α) : Array UInt64 := #[bits p.x, bits p.y, bits p.z]
-  ⟨fe.1, vb fe.2.1, vb fe.2.2, is.1, vb is.2, isb⟩
-end
-
-def runF64 (v : Array Int) : GOut := runG tmaxF (fun i => Float.ofInt i) Float.toBits v
-def runF32 (v : Array Int) : GOut :=
-  runG tmaxF32 (fun i => (Float.ofInt i).toFloat32) (fun x => x.toFloat.toBits) v
-
-def tieBits (h : UInt64) (o : GOut) : UInt64 :=
-  let h := mixB h o.feHit
-  let h := if o.feHit then (o.e ++ o.x).foldl mix h else h
-  let h := mixB h o.isHit
-  let h := if o.isHit then o.ip.foldl mix h else h
-  mixB h o.isb
-
 def ndRat (v : Array Int) : Line3 Q × Box3 Q :=
   let q (i : Nat) : Q := mkRat v[i]! 1
   (⟨⟨q 6, q 7, q 8⟩, ⟨q 9, q 10, q 11⟩⟩, ⟨⟨q 0, q 1, q 2⟩, ⟨q 3, q 4, q 5⟩⟩)
@@ -583,7 +690,23 @@ structure NDSum where
   nFe : Nat
   nIs : Nat
   nGraze : Nat      -- line hits with a single-parameter interval (edge / corner touch, flat boxes)
+  res64 : Nat := 0  -- max distance of a reported point (model@Float = impl bit for bit) from the EXACT point, in 1/1000 of
+  res32 : Nat := 0  --   eps * max(1, |box|, |pos|)   (eps = 2^-52 resp. 2^-23)
+  nPts : Nat := 0   -- points measured
 deriving Inhabited
+
+/-- largest coordinate distance between a point given as double bit patterns and an exact point -/
+def ptErr (a : Array UInt64) (p : V3 Q) : Q :=
+  let c (i : Nat) (q : Q) : Q := qabs (doubleBitsToQ (a[i]!).toNat - q)
+  max (c 0 p.x) (max (c 1 p.y) (c 2 p.z))
+
+/-- "on the ray to within rounding": distance of entry / exit / ip of a floating-point run from the exact
+entry / exit / first-contact point of the oracle (when both say hit) -/
+def ndResidue (o : GOut) (s : SpecOut) : Q × Nat :=
+  let (e1, n1) := match o.feHit, s.entry with | true, some p => (ptErr o.e p, 1) | _, _ => (0, 0)
+  let (e2, n2) := match o.feHit, s.exit with | true, some p => (ptErr o.x p, 1) | _, _ => (0, 0)
+  let (e3, n3) := match o.isHit, s.ip with | true, some p => (ptErr o.ip p, 1) | _, _ => (0, 0)
+  (max e1 (max e2 e3), n1 + n2 + n3)
 
 def ND.runBlock (n : ND) (blk : Nat) : NDSum := Id.run do
   let mut t64 : UInt64 := 1469598103934665603
@@ -592,12 +715,17 @@ def ND.runBlock (n : ND) (blk : Nat) : NDSum := Id.run do
   let mut nFe := 0
   let mut nIs := 0
   let mut nG := 0
+  let mut r64 : Q := 0
+  let mut r32 : Q := 0
+  let mut nP := 0
   for ci in [0:n.perBlock] do
     match n.case blk ci with
     | none => pure ()
     | some v =>
-      t64 := tieBits t64 (runF64 v)
-      t32 := tieBits t32 (runF32 v)
+      let o64 := runF64 v
+      let o32 := runF32 v
+      t64 := tieBits t64 o64
+      t32 := tieBits t32 o32
       let (r, b) := ndRat v
       let l := lineIval r b
       let y := rayIval r b
@@ -607,12 +735,167 @@ def ND.runBlock (n : ND) (blk : Nat) : NDSum := Id.run do
       match l with
       | some i => if !i.loInf && !i.hiInf && i.lo == i.hi then nG := nG + 1
       | none => pure ()
-  return ⟨t64, t32, hb, nFe, nIs, nG⟩
+      if l.isSome then
+        let sp := spec r b
+        let scale : Q := (List.range 9).foldl (fun m i => max m (qabs (mkRat v[i]! 1))) 1
+        let (e64, k) := ndResidue o64 sp
+        let (e32, _) := ndResidue o32 sp
+        r64 := max r64 (e64 / scale)
+        r32 := max r32 (e32 / scale)
+        nP := nP + k
+  return ⟨t64, t32, hb, nFe, nIs, nG, (r64 * mkRat (1000 * 2^52) 1).floor.toNat, (r32 * mkRat (1000 * 2^23) 1).floor.toNat, nP⟩
 
-def hx (u : UInt64) : String := String.ofList (Nat.toDigits 16 u.toNat)
-def gLine (o : GOut) : String :=
-  let pv (a : Array UInt64) : String := ",".intercalate (a.toList.map hx)
-  s!"fe={bStr o.feHit} entry={if o.feHit then pv o.e else "-"} exit={if o.feHit then pv o.x else "-"} is={bStr o.isHit} ip={if o.isHit then pv o.ip else "-"} isb={bStr o.isb}"
+/-! ## Guard lattice at a SMALL `T` (`small`)
+
+With `T = DBL_MAX` no exactly representable lattice makes a guard fail.  The harness therefore also
+instantiates the REAL templates at a wrapper scalar `Small` whose `numeric_limits<Small>::max()` is a
+small number (4): on a dyadic lattice with direction components in {0, ±1/8, ±1/2, ±1, ±2} and
+coordinates of magnitude ≤ 6 every guard-fail arm is reached, all arithmetic is exact, and the
+outputs are compared EXACTLY with the model over `Rat` at the same `T`.  In addition the model is
+compared with an executable form of the `_guardpath` theorems written with the interval oracle
+(`feGuardOracle`, `isGuardOracle`), and — where every non-zero component passes its guard as
+written — with the plain geometric oracle restricted to parameters `|t| ≤ T` (`_iff_window`). -/
+
+structure Small where
+  T : Q
+  boxes : Array (Array Q)
+  pv : Array Q
+  dv : Array Q
+
+def parseSmall (t boxes pv dv : String) : Small :=
+  ⟨parseQ t, (boxes.splitOn ";").toArray.map (fun b => (b.splitOn ",").toArray.map parseQ),
+   (pv.splitOn ",").toArray.map parseQ, (dv.splitOn ",").toArray.map parseQ⟩
+
+def Small.nBlocks (n : Small) : Nat := n.boxes.size * n.pv.size
+def Small.perBlock (n : Small) : Nat := n.pv.size * n.pv.size * n.dv.size * n.dv.size * n.dv.size
+
+def Small.case (n : Small) (blk ci : Nat) : Line3 Q × Box3 Q :=
+  let np := n.pv.size
+  let nd := n.dv.size
+  let b := n.boxes[blk / np]!
+  let ix := blk % np
+  let jz := ci % nd
+  let jy := (ci / nd) % nd
+  let jx := (ci / (nd * nd)) % nd
+  let iz := (ci / (nd * nd * nd)) % np
+  let iy := ci / (nd * nd * nd * np)
+  (⟨⟨n.pv[ix]!, n.pv[iy]!, n.pv[iz]!⟩, ⟨n.dv[jx]!, n.dv[jy]!, n.dv[jz]!⟩⟩, ⟨⟨b[0]!, b[1]!, b[2]!⟩, ⟨b[3]!, b[4]!, b[5]!⟩⟩)
+
+/-- parameter set one block of `findEntryAndExitPoints` contributes (`feEff`): the slab if the guard as written
+passes, else everything / nothing according to whether the origin coordinate is inside the slab -/
+def feEffSet (T p d lo hi : Q) : Option Ival :=
+  if codeGuard T p d lo hi then slab p d lo hi
+  else if lo ≤ p && p ≤ hi then some Ival.all else none
+
+def boxEmpty (b : Box3 Q) : Bool := b.max.x < b.min.x || b.max.y < b.min.y || b.max.z < b.min.z
+def boxHas (b : Box3 Q) (p : V3 Q) : Bool :=
+  b.min.x ≤ p.x && p.x ≤ b.max.x && b.min.y ≤ p.y && p.y ≤ b.max.y && b.min.z ≤ p.z && p.z ≤ b.max.z
+
+def feGuardOracle (T : Q) (r : Line3 Q) (b : Box3 Q) : Bool :=
+  if boxEmpty b then false else
+  (oInter (oInter (oInter (feEffSet T r.pos.x r.dir.x b.min.x b.max.x) (feEffSet T r.pos.y r.dir.y b.min.y b.max.y))
+    (feEffSet T r.pos.z r.dir.z b.min.z b.max.z)) (some ⟨false, -T, false, T⟩)).isSome
+
+/-- parameter set one block of `intersects` contributes (`isEff`): upper end the back quotient unless its guard
+fails (then none), lower end — only when the origin is before the front face — the front quotient or `T` -/
+def isEffSet (T p d lo hi : Q) : Option Ival :=
+  if d > 0 then
+    if p > hi then none else
+    let up : Ival := if d > 1 || hi - p < T * d then ⟨true, 0, false, (hi - p) / d⟩ else Ival.all
+    let low : Ival := if p ≤ lo then ⟨false, (if d > 1 || lo - p < T * d then (lo - p) / d else T), true, 0⟩ else Ival.all
+    low.inter up
+  else if d < 0 then
+    if p < lo then none else
+    let up : Ival := if d < -1 || lo - p > T * d then ⟨true, 0, false, (lo - p) / d⟩ else Ival.all
+    let low : Ival := if p ≥ hi then ⟨false, (if d < -1 || hi - p > T * d then (hi - p) / d else T), true, 0⟩ else Ival.all
+    low.inter up
+  else if lo ≤ p && p ≤ hi then some Ival.all else none
+
+def isGuardOracle (T : Q) (r : Line3 Q) (b : Box3 Q) : Bool :=
+  if boxEmpty b then false else if boxHas b r.pos then true else
+  (oInter (oInter (oInter (isEffSet T r.pos.x r.dir.x b.min.x b.max.x) (isEffSet T r.pos.y r.dir.y b.min.y b.max.y))
+    (isEffSet T r.pos.z r.dir.z b.min.z b.max.z)) (some ⟨false, 0, false, T⟩)).isSome
+
+def codeGuardsOK (T : Q) (r : Line3 Q) (b : Box3 Q) : Bool :=
+  (r.dir.x == 0 || codeGuard T r.pos.x r.dir.x b.min.x b.max.x) &&
+  (r.dir.y == 0 || codeGuard T r.pos.y r.dir.y b.min.y b.max.y) &&
+  (r.dir.z == 0 || codeGuard T r.pos.z r.dir.z b.min.z b.max.z)
+
+/-- which guard-fail arms a case executes: indices 0-5 `fe` (axis × {dir<0 fallback returns false, falls through}),
+6-17 `intersects` (axis × sign × {back update skipped, front parameter := T}), 18-20 `fe` guard true through
+`|dir| > 1` ALONE, 21-23 `fe` `dir >= 0` fallback (returns false or falls through) with `dir > 0` -/
+def smallArms (T : Q) (r : Line3 Q) (b : Box3 Q) (h : Array Nat) : Array Nat := Id.run do
+  if boxEmpty b then return h
+  let mut h := h
+  let ax : Array (Q × Q × Q × Q) := #[(r.pos.x, r.dir.x, b.min.x, b.max.x), (r.pos.y, r.dir.y, b.min.y, b.max.y),
+                                      (r.pos.z, r.dir.z, b.min.z, b.max.z)]
+  -- findEntryAndExitPoints
+  let mut live := true
+  for a in [0:3] do
+    if live then
+      let (p, d, lo, hi) := ax[a]!
+      let g := codeGuard T p d lo hi
+      let out := p < lo || p > hi
+      if !g then
+        if d < 0 then h := h.modify (2 * a + (if out then 0 else 1)) (· + 1)
+        if d > 0 then h := h.modify (21 + a) (· + 1)
+        if out then live := false
+      else if !(qabs (hi - p) < T * qabs d && qabs (lo - p) < T * qabs d) then h := h.modify (18 + a) (· + 1)
+  -- intersects (blocks run only for an origin outside the box)
+  if boxHas b r.pos then return h
+  live := true
+  for a in [0:3] do
+    if live then
+      let (p, d, lo, hi) := ax[a]!
+      if d > 0 then
+        if p > hi then live := false
+        else
+          if !(d > 1 || hi - p < T * d) then h := h.modify (6 + 4 * a) (· + 1)
+          if p ≤ lo && !(d > 1 || lo - p < T * d) then h := h.modify (6 + 4 * a + 1) (· + 1)
+      else if d < 0 then
+        if p < lo then live := false
+        else
+          if !(d < -1 || lo - p > T * d) then h := h.modify (6 + 4 * a + 2) (· + 1)
+          if p ≥ hi && !(d < -1 || hi - p > T * d) then h := h.modify (6 + 4 * a + 3) (· + 1)
+      else if p < lo || p > hi then live := false
+  return h
+
+structure SmallSum where
+  tie : UInt64
+  nFe : Nat
+  nIs : Nat
+  nGuardDiff : Nat     -- model vs executable `_guardpath`
+  nWindowDiff : Nat    -- model vs geometric oracle restricted to |t| ≤ T, on cases where every guard as written passes
+  nWindow : Nat        -- number of such cases
+  nUnwritten : Nat     -- fe true with entry and exit still the sentinels
+  arms : Array Nat
+deriving Inhabited
+
+def Small.runBlock (n : Small) (blk : Nat) : SmallSum := Id.run do
+  let mut ht : UInt64 := 1469598103934665603
+  let mut nFe := 0
+  let mut nIs := 0
+  let mut nG := 0
+  let mut nW := 0
+  let mut nWc := 0
+  let mut nU := 0
+  let mut arms : Array Nat := Array.replicate 24 0
+  for ci in [0:n.perBlock] do
+    let (r, b) := n.case blk ci
+    let m := runModel n.T r b
+    ht := mixB (modelSpecHash ht m) m.isBool
+    if m.feHit then nFe := nFe + 1
+    if m.isHit then nIs := nIs + 1
+    if m.feHit != feGuardOracle n.T r b || m.isHit != isGuardOracle n.T r b then nG := nG + 1
+    if !boxEmpty b && codeGuardsOK n.T r b then
+      nWc := nWc + 1
+      let l := lineIval r b
+      let wl := (oInter l (some ⟨false, -n.T, false, n.T⟩)).isSome
+      let wr := (oInter l (some ⟨false, 0, false, n.T⟩)).isSome
+      if m.feHit != wl || m.isHit != wr then nW := nW + 1
+    if m.feHit && m.entry == sentinelE && m.exit == sentinelX then nU := nU + 1
+    arms := smallArms n.T r b arms
+  return ⟨ht, nFe, nIs, nG, nW, nWc, nU, arms⟩
 
 def runTasksG {β : Type} [Inhabited β] (nt : Nat) (lo hi : Nat) (f : Nat → β) : IO (Array β) := do
   let tasks ← (List.range nt).mapM fun t => IO.asTask (prio := .dedicated) do
@@ -688,7 +971,7 @@ def main (args : List String) : IO Unit := do
     let res ← runTasksG 16 0 n.nBlocks (fun blk => n.runBlock blk)
     for i in [0:n.nBlocks] do
       let s := res[i]!
-      out.putStrLn s!"{i} {s.tie64.toNat} {s.tie32.toNat} {s.bools.toNat} {s.nFe} {s.nIs} {s.nGraze}"
+      out.putStrLn s!"{i} {s.tie64.toNat} {s.tie32.toNat} {s.bools.toNat} {s.nFe} {s.nIs} {s.nGraze} {s.res64} {s.res32} {s.nPts}"
   | ["ndlines", boxes, r, ox, oy, oz, blk, ft] =>
     let n := parseND boxes r ox oy oz
     for ci in [0:n.perBlock] do
@@ -698,11 +981,29 @@ def main (args : List String) : IO Unit := do
         let o := if ft == "f" then runF32 v else runF64 v
         let (rr, b) := ndRat v
         out.putStrLn s!"{ci} in={" ".intercalate (v.toList.map toString)} | M {gLine o} | S fe={bStr (lineIval rr b).isSome} is={bStr (rayIval rr b).isSome}"
+  | ["small", t, boxes, pv, dv] =>
+    let n := parseSmall t boxes pv dv
+    let res ← runTasksG 16 0 n.nBlocks (fun blk => n.runBlock blk)
+    for i in [0:n.nBlocks] do
+      let s := res[i]!
+      out.putStrLn s!"{i} {s.tie.toNat} {s.nFe} {s.nIs} {s.nGuardDiff} {s.nWindowDiff} {s.nWindow} {s.nUnwritten} {" ".intercalate (s.arms.toList.map toString)}"
+  | ["smalllines", t, boxes, pv, dv, blk] =>
+    let n := parseSmall t boxes pv dv
+    for ci in [0:n.perBlock] do
+      let (r, b) := n.case blk.toNat! ci
+      let m := runModel n.T r b
+      let ok := codeGuardsOK n.T r b && !boxEmpty b
+      let l := lineIval r b
+      let w := if ok then s!"fe={bStr (oInter l (some ⟨false, -n.T, false, n.T⟩)).isSome} is={bStr (oInter l (some ⟨false, 0, false, n.T⟩)).isSome}" else "-"
+      out.putStrLn s!"{ci} box={vStr b.min};{vStr b.max} pos={vStr r.pos} dir={vStr r.dir} | M {modelLine m} | G fe={bStr (feGuardOracle n.T r b)} is={bStr (isGuardOracle n.T r b)} | W {w}"
   | ["sweep"] =>
     let h ← IO.getStdin
-    let B0 : SweepBlock := ⟨tmaxDouble, mkRat 1 1000000000, ⟨⟨0,0,0⟩,⟨0,0,0⟩⟩, #[], #[], #[], #[], #[], #[], "", "-", 53⟩
-    let a ← readSweep h B0 {}
+    let B0 : SweepBlock := { T := tmaxDouble, eta := mkRat 1 1000000000, box := ⟨⟨0,0,0⟩,⟨0,0,0⟩⟩, px := #[], py := #[], pz := #[],
+                             dx := #[], dy := #[], dz := #[], impl := "", tag := "-" }
+    let o ← readSweep h B0 {}
+    let a := o.acc
     out.putStrLn s!"cases {a.cases}"
+    out.putStrLn s!"blocks {o.nblocks}"
     out.putStrLn s!"lineHit {a.lineHit}"
     out.putStrLn s!"rayHit {a.rayHit}"
     out.putStrLn s!"robustLine {a.robustLine}"
@@ -713,6 +1014,16 @@ def main (args : List String) : IO Unit := do
     out.putStrLn s!"feGuardOutside {a.feGuardOutside}"
     out.putStrLn s!"isFrontSubst {a.isFrontSubst}"
     out.putStrLn s!"isBackSkip {a.isBackSkip}"
+    out.putStrLn s!"wrapperDiffers {a.wrapperDiffers}"
+    out.putStrLn s!"feTrue {a.feTrue}"
+    out.putStrLn s!"isTrueOutside {a.isTrueOutside}"
+    out.putStrLn s!"zeroDirCases {a.zeroDirCases}"
+    out.putStrLn s!"tieChunks {o.tieChunks}"
+    out.putStrLn s!"tieBad {o.tieBad}"
     for (c, n) in a.counts do out.putStrLn s!"count {c} {n}"
+    for l in o.lines do out.putStrLn l
     for e in a.examples do out.putStrLn e
+  | ["fcases", ft] =>
+    let h ← IO.getStdin
+    fcasesLoop h out (ft == "f")
   | _ => IO.eprintln "usage: drv_raybox lattice|lines|case|sweep ..."
